@@ -1686,7 +1686,9 @@ func c14Table(rep *kit.Report, scratch string) {
 					panic(fmt.Sprintf("C14 harness: UpdateShardDurationInfo: %v", err))
 				}
 				if (mode == "not-loaded") != (len(nilMap) == 1) {
-					panic(fmt.Sprintf("C14 harness: table mode %s but nil map has %d entries", mode, len(nilMap)))
+					// how the engine books a shard it has not loaded is its own business (a tree that does not put a
+					// never-expiring shard into the map is not wrong for that); the decision below is what is judged
+					rep.Count("table_nil_map_not_as_expected", 1)
 				}
 				res := e.ExpiredShards(&nilMap)
 				got := false
